@@ -60,7 +60,7 @@ impl PosOracle for C04 {
     }
 }
 
-pub const RULE: &str = "states = all valid 3-man positions (complete), the reachable closure (fixpoint, no depth bound) of KRK (quick) plus KQK and KPK-with-promotions (thorough), the bounded trees below the curated roots (mate-in-one / stalemate-in-one neighbourhoods included), the en-passant / castling / promotion families with children, complete 4-man sets (thorough), and constructions around boxed kings — every bare-king mate / stalemate of the 3-man sets with one pinned man and its pinner added at distance <= 2 in every direction (all kinds), with two such pins on different lines (corner kings), and with an en-passant pattern of the boxed side (pawn, double-pushed enemy pawn, optional blocker of the push square, optional slider on the capture diagonal), and with a two-capturer en-passant pattern (pushed pawn between two pawns of the boxed side, push squares free or blocked, one enemy slider anywhere: either capturer pinned or not); each judged: status() against (reference in-check, reference has-a-legal-move); Game::result() on every terminal and every initial state. distinct_nontrivial = judged states that are checkmate, stalemate, in check, or have exactly one legal move";
+pub const RULE: &str = "states = all valid 3-man positions (complete), the reachable closure (fixpoint, no depth bound) of KRK (quick) plus KQK and KPK-with-promotions (thorough), the bounded trees below the curated roots (mate-in-one / stalemate-in-one neighbourhoods included), the en-passant / castling / promotion families with children, complete 4-man sets (thorough), and constructions around boxed kings — every bare-king mate / stalemate of the 3-man sets with one pinned man and its pinner added at distance <= 2 in every direction (all kinds), with two such pins on different lines (corner kings), and with an en-passant pattern of the boxed side (pawn, double-pushed enemy pawn, optional blocker of the push square, optional slider on the capture diagonal), and with a two-capturer en-passant pattern (pushed pawn between two pawns of the boxed side, push squares free or blocked, one enemy slider anywhere: either capturer pinned or not); and the complete set of positions of K+X+P v K+p with mutually blocked pawns in which the side owning X has at most one legal move (mates, stalemates and only-move positions with immobile men of the side to move); each judged: status() against (reference in-check, reference has-a-legal-move); Game::result() on every terminal and every initial state. distinct_nontrivial = judged states that are checkmate, stalemate, in check, or have exactly one legal move";
 
 pub fn run(tier: Tier) -> i32 {
     let mut plan = standard_plan(tier, 1);
@@ -82,7 +82,8 @@ pub fn run(tier: Tier) -> i32 {
     plan.families.push((Box::new(PinnedTerminalFamily { bases: if tier == Tier::Quick { corner.iter().copied().step_by(8).collect() } else { corner.clone() }, specs: pin_specs(), two: true }), 0));
     plan.families.push((Box::new(EpTerminalFamily { bases: bases.clone() }), 0));
     plan.families.push((Box::new(EpTerminalTwoFamily { bases: bases.clone() }), 0));
-    let plan = with_line_geometry(plan, true, tier.pick(0, 1));
+    let mut plan = with_line_geometry(plan, true, tier.pick(0, 1));
+    plan.families.push((Box::new(blocked_pawn_terminals()), 0));
     let (run, _) = run_e1("C04", tier, COUNTERS, C04, plan, RULE, &[]);
     finish(&run, RULE)
 }
